@@ -165,6 +165,44 @@ def job_family(args):
                                    'impl_minus_exact': float(val), 'tol': float(tol), 'exact': float(ex.eval(env))})
         else:
             out['unknown'].append({'j': j, 'why': 'solver unknown'})
+        # early returns on a region of the floating-point arguments (`if (xi1 <= -1. && xi2 >= 1.) return ...;`): inside the domain the
+        # region is the point where the comparisons hold with equality; the value returned there must be the exact integral too
+        try:
+            edges = T.edge_values()
+        except CParseError as e:
+            out['errors'].append('%s(%d,%d): %s' % (name, i, j, e))
+            edges = []
+        for region, pe in edges:
+            out['ob'] += 1
+            if pe is None:
+                out['sat'].append({'j': j, 'why': 'no return value on the region %s' % region, 'point': None})
+                continue
+            ex_pt, ok = ex, True
+            for v_, (op_, lit_) in region.items():
+                if v_ not in ('xi1', 'xi2', 'c0', 'c1') or not (-1 <= lit_ <= 1):
+                    ok = False
+                ex_pt = ex_pt.subs(v_, Poly.const(lit_)) if v_ in ex_pt.vars() else ex_pt
+                pe = pe.subs(v_, Poly.const(lit_)) if v_ in pe.vars() else pe
+            if not ok:
+                out['errors'].append('%s(%d,%d): early return on a region not understood: %s' % (name, i, j, region))
+                continue
+            dg = pe - ex_pt
+            tol_g = TOL * (ex_pt.abs_coef_sum() or scale or 1)
+            vg, _, msg_ = box_query(dg, tol_g)
+            out['ms'] += msg_
+            if vg == 'unsat':
+                out['unsat'] += 1
+            elif vg == 'sat':
+                pt = refine(dg, tol_g, i * 31 + j + 7)
+                if pt is None:
+                    out['unknown'].append({'j': j, 'why': 'early-return region: abstraction sat, no real point found'})
+                else:
+                    env, val = pt
+                    env = dict(env, **{v_: lit_ for v_, (op_, lit_) in region.items()})
+                    out['sat'].append({'j': j, 'why': 'value returned early on %s differs from the exact integral' % ' && '.join('%s %s %s' % (v_, o_, l_) for v_, (o_, l_) in sorted(region.items())),
+                                       'point': {k: str(x) for k, x in env.items()}, 'impl_minus_exact': float(val), 'tol': float(tol_g), 'exact': float(ex.eval(env))})
+            else:
+                out['unknown'].append({'j': j, 'why': 'early-return region: solver unknown'})
         if j == (i * 7) % 30:
             out['samples'].append({'entry': '%s(%d,%d)' % (name, i, j), 'monomials_in_difference': len(diff.t),
                                    'sum_abs_exact_coef': float(scale), 'sum_abs_diff_coef': float(diff.abs_coef_sum()), 'verdict': v})
